@@ -15,6 +15,9 @@
    string the thread obtained (2i inline, 2i+1 as @include), same = equal to the solo result;
    then one triple for the stand-off files: per member 1 if its file does not hold the member's
    content after the run.
+   A fifth element 1 marks a free run: the threads were started together without the scheduler
+   (real pre-emption); there is no schedule to replay, and by C20_scenario the model's answer is
+   the same for every schedule: the specified solo results.
    The model is run with the mode confined to the thread (sh = false: the code since 5f67dd0). *)
 From Coq Require Import List ZArith Bool Arith.
 Import ListNotations.
@@ -66,9 +69,14 @@ Fixpoint triples (sc : scen) (ts : list thread) (os : list op) : list sx :=
 Definition file_bad (ts : list thread) (i : nat) : bool :=
   existsb (fun t => existsb (fun p => Nat.eqb (fst p) i && negb (Nat.eqb (snd p) (t_inline i))) (fout t)) ts.
 
+(* every thread scheduled until it has finished: one of the schedules *)
+Definition sequential_schedule (sc : scen) : list nat :=
+  flat_map (fun i => repeat i 64) (seq 0 (length (ops sc))).
+
 Definition run_C20 (x : sx) : sx :=
   let sc := scen_of x in
-  let sched := map sx_nat (sx_list (sx_nth 3 x)) in
+  let free := sx_bool (sx_nth 4 x) in
+  let sched := if free then sequential_schedule sc else map sx_nat (sx_list (sx_nth 3 x)) in
   let st := run_coarse false sched (init sc) in
   let n := length (members sc) in
   L (triples sc (thr st) (ops sc)
